@@ -30,11 +30,11 @@ XUsesQ == {X("x1", 5, FALSE), X("x1", Abs, TRUE)}
 XUsesS == {X(q, dflt, cm) : q \in {"x1", "x2"}, dflt \in {Abs, 0, 5}, cm \in BOOLEAN}
 DocFilesQ == {Doc("docs1", "bz2", L(10), ""), Doc("docs2", "", P("p1", 10), "i1"), Doc("docs1", "", L(0), ""),
               [Doc("docs3", "", L(10), "") EXCEPT !.iaamd = "true"]}
-AlphaQ == [clients |-> {0, 2}, wi |-> {0}, it |-> {0, 3}, wtp |-> {5}, tp |-> {7}, ru |-> {5, 9}, tput |-> {4}, bulk |-> {50},
+AlphaQ == [ibody |-> {3}, tbody |-> {1}, clients |-> {0, 2}, wi |-> {0}, it |-> {0, 3}, wtp |-> {5}, tp |-> {7}, ru |-> {5, 9}, tput |-> {4}, bulk |-> {50},
            cap |-> {1}]
 \* ---- thorough: one more thing written, wider alphabets ----
 TaskOpsT == {Str("bulk"), Str("n1"), Inl("", "force-merge"), Inl("n2", "my-op")}
-AlphaT == [clients |-> {0, 2}, wi |-> {0, 4}, it |-> {0, 3}, wtp |-> {0, 5}, tp |-> {0, 7}, ru |-> {5, 9}, tput |-> {4}, bulk |-> {50},
+AlphaT == [ibody |-> {3}, tbody |-> {1}, clients |-> {0, 2}, wi |-> {0, 4}, it |-> {0, 3}, wtp |-> {0, 5}, tp |-> {0, 7}, ru |-> {5, 9}, tput |-> {4}, bulk |-> {50},
            cap |-> {0, 1}]
 ChalOpsQ == {Str("bulk")}
 TagSeqsQ == {<<"a", "b">>}
@@ -50,8 +50,8 @@ OpDefsS == {Op("n1", "search", L(50)), Op("n1", "bulk", P("p1", 50)), Op("n2", "
 DocFilesS == {Doc("docs1", "bz2", L(10), ""), Doc("docs2", "", P("p1", 10), "i1"), Doc("docs1", "", L(0), ""), Doc("docs3", "gz", P("p2", 500), ""),
               Doc("docs4", "", L(1000000), "i2"), [Doc("docs5", "gz", L(7), "") EXCEPT !.iaamd = "true"],
               [Doc("docs6", "", L(7), "") EXCEPT !.tds = "d1"]}
-AlphaS == [clients |-> {0, 1, 2, 8}, wi |-> {0, 100}, it |-> {0, 1, 1000}, wtp |-> {0, 5, 120}, tp |-> {0, 7, 3600}, ru |-> {0, 5, 9, 120},
+AlphaS == [ibody |-> {3}, tbody |-> {1}, clients |-> {0, 1, 2, 8}, wi |-> {0, 100}, it |-> {0, 1, 1000}, wtp |-> {0, 5, 120}, tp |-> {0, 7, 3600}, ru |-> {0, 5, 9, 120},
            tput |-> {1, 40}, bulk |-> {50, 5000}, cap |-> {0, 1, 3}]
-AllFields == {"clients", "wi", "it", "wtp", "tp", "ru", "tput", "bulk", "cap"}
+AllFields == {"ibody", "tbody", "clients", "wi", "it", "wtp", "tp", "ru", "tput", "bulk", "cap"}
 TagSeqsS == {<<"a">>, <<"a", "b">>, <<"setup", "a", "b">>}
 ====
